@@ -161,9 +161,26 @@ func addrCmd(args []string) error {
 	for _, a := range valid {
 		tr.emit(acceptEvent("valid", a))
 	}
-	// typo neighbourhoods
-	for i := 0; i < len(valid) && i < *typos; i++ {
-		a := valid[i]
+	// typo neighbourhoods: addresses of both networks in turn (main: leading '1', test: 'm' / 'n')
+	var mains, tests []string
+	for _, a := range valid {
+		if a[0] == '1' {
+			mains = append(mains, a)
+		} else {
+			tests = append(tests, a)
+		}
+	}
+	var bases []string
+	for k := 0; k < len(mains) || k < len(tests); k++ {
+		if k < len(tests) {
+			bases = append(bases, tests[k])
+		}
+		if k < len(mains) {
+			bases = append(bases, mains[k])
+		}
+	}
+	for i := 0; i < len(bases) && i < *typos; i++ {
+		a := bases[i]
 		for pos := 0; pos < len(a); pos++ {
 			for k := 0; k < len(b58alphabet); k++ {
 				if b58alphabet[k] != a[pos] && (rng.Intn(4) == 0 || i < 2) {
